@@ -10,6 +10,18 @@
     from the library's own limits) plus 75 bytes per input byte, for every input.
   The parsers owned by other properties contribute their own theorems (re-exported here).
 -/
+import BtcVerif.Props.GuardPins.P_address
+import BtcVerif.Props.GuardPins.P_wif
+import BtcVerif.Props.GuardPins.P_bip39
+import BtcVerif.Props.GuardPins.P_base58check
+import BtcVerif.Props.GuardPins.P_base58
+import BtcVerif.Props.GuardPins.P_bech32
+import BtcVerif.Props.GuardPins.P_der
+import BtcVerif.Props.GuardPins.P_script
+import BtcVerif.Props.GuardPins.P_varint
+import BtcVerif.Props.GuardPins.P_blocks_blockheader
+import BtcVerif.Props.GuardPins.P_blocks
+import BtcVerif.Props.GuardPins.P_tx
 import BtcVerif.Proofs.Alloc
 import BtcVerif.Proofs.ParsersNoPanic
 import BtcVerif.Proofs.Accessors
